@@ -205,6 +205,10 @@ func (runInfo *runInfoStruct) callExpr() {
 	if runInfo.err != nil {
 		return
 	}
+	if callExpr.Go {
+		// the goroutine gets the values read now, not the elements they were read from
+		holdArgs(args, isRunVMFunction)
+	}
 
 	if !runInfo.options.Debug {
 		// captures panic
@@ -300,6 +304,10 @@ func (runInfo *runInfoStruct) callVMFunctionDirect(f reflect.Value, callExpr *as
 	runInfo.rv = nilValue
 
 	if callExpr.Go {
+		// the goroutine gets the values read now, not the elements they were read from
+		for i := range args {
+			args[i] = heldValue(args[i])
+		}
 		ctx := runInfo.ctx
 		switch {
 		case fn0 != nil:
